@@ -884,7 +884,18 @@ def run(job, props=("C03", "C04", "C05", "C06", "C07", "C15", "C17"), keep_dir=N
         saved = _install(ctx)
         random.seed(sysrng.getrandbits(32))
         np.random.seed(sysrng.getrandbits(32))
-        os.chdir(workdir)
+        if job.get("cwd_decoy"):
+            # the process works in another directory that holds different files under the names of the included .itp
+            decoy_dir = os.path.join(workdir, "elsewhere")
+            os.makedirs(decoy_dir, exist_ok=True)
+            for fn, txt in topgen.render_top(job["cwd_decoy"]).items():
+                if fn != "system.top":
+                    with open(os.path.join(decoy_dir, fn), "w") as fh:
+                        fh.write(txt)
+            os.chdir(decoy_dir)
+            ctx.probe("cwd_with_decoy_includes")
+        else:
+            os.chdir(workdir)
         try:
             gen_coords(**kw)
         except SimAbort as err:
